@@ -94,6 +94,36 @@ func init() {
 (assert (forall ((a Int) (k Int)) (! (=> (<= k 0) (= (dlast a k) 0)) :pattern ((dlast a k)))))
 (assert (forall ((a Int) (k Int)) (! (=> (> k 0) (= (dlast a k) (ite (not (= (sel_Int a (- k 1)) 0)) (sel_Int a (- k 1)) (dlast a (- k 1))))) :pattern ((dlast a k)))))
 `})
+	// decorators with a price as closure state (C07, C18): the purchase close of NoLoss / the stop level of StopLoss after k
+	// inputs, and the action emitted for input k. a: wrapped strategy's actions (Int), c: closings (Real), p: percentage
+	addPrelude(&PreludeFn{Name: "nlB", Args: []string{"stream", "stream", "int"}, Ret: "real", Deps: []string{"sel_Int", "sel_Real"}, SMT: `
+(declare-fun nlB (Int Int Int) Real)
+(assert (forall ((a Int) (c Int) (k Int)) (! (=> (<= k 0) (= (nlB a c k) 0.0)) :pattern ((nlB a c k)))))
+(assert (forall ((a Int) (c Int) (k Int)) (! (=> (> k 0) (= (nlB a c k)
+  (ite (and (= (sel_Int a (- k 1)) 1) (= (nlB a c (- k 1)) 0.0)) (sel_Real c (- k 1))
+  (ite (and (= (sel_Int a (- k 1)) (- 1)) (not (= (nlB a c (- k 1)) 0.0)) (< (nlB a c (- k 1)) (sel_Real c (- k 1)))) 0.0
+       (nlB a c (- k 1)))))) :pattern ((nlB a c k)))))
+`})
+	addPrelude(&PreludeFn{Name: "nlA", Args: []string{"stream", "stream", "int"}, Ret: "int", Deps: []string{"nlB", "sel_Int", "sel_Real"}, SMT: `
+(declare-fun nlA (Int Int Int) Int)
+(assert (forall ((a Int) (c Int) (k Int)) (! (= (nlA a c k)
+  (ite (and (= (sel_Int a k) 1) (= (nlB a c k) 0.0)) 1
+  (ite (and (= (sel_Int a k) (- 1)) (not (= (nlB a c k) 0.0)) (< (nlB a c k) (sel_Real c k))) (- 1) 0))) :pattern ((nlA a c k)))))
+`})
+	addPrelude(&PreludeFn{Name: "slB", Args: []string{"stream", "stream", "real", "int"}, Ret: "real", Deps: []string{"sel_Int", "sel_Real"}, SMT: `
+(declare-fun slB (Int Int Real Int) Real)
+(assert (forall ((a Int) (c Int) (p Real) (k Int)) (! (=> (<= k 0) (= (slB a c p k) 0.0)) :pattern ((slB a c p k)))))
+(assert (forall ((a Int) (c Int) (p Real) (k Int)) (! (=> (> k 0) (= (slB a c p k)
+  (ite (and (= (sel_Int a (- k 1)) 1) (= (slB a c p (- k 1)) 0.0)) (* (sel_Real c (- k 1)) (- 1.0 p))
+  (ite (and (not (= (slB a c p (- k 1)) 0.0)) (or (= (sel_Int a (- k 1)) (- 1)) (<= (sel_Real c (- k 1)) (slB a c p (- k 1))))) 0.0
+       (slB a c p (- k 1)))))) :pattern ((slB a c p k)))))
+`})
+	addPrelude(&PreludeFn{Name: "slA", Args: []string{"stream", "stream", "real", "int"}, Ret: "int", Deps: []string{"slB", "sel_Int", "sel_Real"}, SMT: `
+(declare-fun slA (Int Int Real Int) Int)
+(assert (forall ((a Int) (c Int) (p Real) (k Int)) (! (= (slA a c p k)
+  (ite (and (= (sel_Int a k) 1) (= (slB a c p k) 0.0)) 1
+  (ite (and (not (= (slB a c p k) 0.0)) (or (= (sel_Int a k) (- 1)) (<= (sel_Real c k) (slB a c p k)))) (- 1) 0))) :pattern ((slA a c p k)))))
+`})
 	// nobuy(a,k): none of a[0..k-1] is Buy
 	addPrelude(&PreludeFn{Name: "nobuy", Args: []string{"stream", "int"}, Ret: "bool", Deps: []string{"sel_Int"}, SMT: `
 (declare-fun nobuy (Int Int) Bool)
